@@ -446,6 +446,16 @@ class _Generator(Generator):
             encode_lines += member_encode_lines
             decode_lines += member_decode_lines
 
+        if type_.additions is not None and len(type_.additions) == 0:
+            _, additions_decode_lines = (
+                self.format_sequence_additions(type_, checker))
+            decode_lines += [
+                '',
+                'if(({}[0] & 0x80u) == 0x80u) {{'.format(unique_present_mask)
+            ] + indent_lines(additions_decode_lines) + [
+                '}'
+            ]
+
         if type_.additions is not None and len(type_.additions) > 0:
             additions_encode_lines, additions_decode_lines = (
                 self.format_sequence_additions(type_, checker))
@@ -513,9 +523,12 @@ class _Generator(Generator):
             '{} = (({} * 8u) - {});'.format(unique_addition_bits, unique_addition_length,
                                             unique_addition_unused_bits)]
 
-        fmt = 'uint8_t {{}}[{}];'.format(addition_mask_length)
-        unique_addition_mask = self.add_unique_variable(
-            fmt, 'addition_mask')
+        if addition_mask_length > 0:
+            fmt = 'uint8_t {{}}[{}];'.format(addition_mask_length)
+            unique_addition_mask = self.add_unique_variable(
+                fmt, 'addition_mask')
+        else:
+            unique_addition_mask = None
 
         for i in range(addition_mask_length):
             encode_lines.append('{}[{}] = 0;'.format(unique_addition_mask, i))
@@ -532,10 +545,11 @@ class _Generator(Generator):
                 '    {} |= {}u;'.format(addition_mask, mask),
                 '}'
             ]
-        encode_lines += [
-            'encoder_append_bytes(encoder_p,',
-            '                     &{}[0],'.format(unique_addition_mask),
-            '                     sizeof({}));'.format(unique_addition_mask)]
+        if unique_addition_mask is not None:
+            encode_lines += [
+                'encoder_append_bytes(encoder_p,',
+                '                     &{}[0],'.format(unique_addition_mask),
+                '                     sizeof({}));'.format(unique_addition_mask)]
 
         unique_i = self.add_unique_decode_variable('uint32_t {};', 'i')
         unique_tmp_addition_mask = self.add_unique_decode_variable('uint8_t {};',
@@ -544,19 +558,35 @@ class _Generator(Generator):
             'uint32_t {};', 'unknown_addition_bits')
         unique_mask = self.add_unique_decode_variable('uint8_t {};', 'mask')
 
+        if unique_addition_mask is not None:
+            decode_lines += [
+                'decoder_read_bytes(decoder_p,',
+                '                   {mask},'.format(mask=unique_addition_mask),
+                '                   ({read} < {defined}u) ? {read} : {defined}u);'.format(
+                    read=unique_addition_length, defined=addition_mask_length),
+                '',
+                '{} = {}[{}];'.format(unique_tmp_addition_mask, unique_addition_mask,
+                                      addition_mask_length - 1),
+                # With a multiple of eight known additions the first unknown
+                # bit is in the next byte, which the loop has to read.
+                '{} = 0x{:02x};'.format(
+                    unique_mask,
+                    (0x80 >> (len(type_.additions) % 8))
+                    if (len(type_.additions) % 8) != 0 else 0)
+            ]
+        else:
+            # No known additions: the first mask byte is read in the loop.
+            decode_lines += [
+                '{} = 0;'.format(unique_tmp_addition_mask),
+                '{} = 0;'.format(unique_mask)
+            ]
+
         decode_lines += [
-            'decoder_read_bytes(decoder_p,',
-            '                   {mask},'.format(mask=unique_addition_mask),
-            '                   ({read} < {defined}u) ? {read} : {defined}u);'.format(
-                read=unique_addition_length, defined=addition_mask_length),
-            '',
-            '{} = {}[{}];'.format(unique_tmp_addition_mask, unique_addition_mask,
-                                  addition_mask_length - 1),
-            '{} = 0x{:02x};'.format(unique_mask, 0x80 >> (len(type_.additions) % 8)),
             '{} = 0;'.format(unique_unknown_addition_bits),
             '',
-            'for (i = {}; i < {}; i++) {{'.format(len(type_.additions),
-                                                  unique_addition_bits),
+            'for ({0} = {1}; {0} < {2}; {0}++) {{'.format(unique_i,
+                                                          len(type_.additions),
+                                                          unique_addition_bits),
             '',
             '    if ({} == 0u) {{'.format(unique_mask),
             '        decoder_read_bytes(decoder_p, &{}, 1);'.format(
